@@ -73,6 +73,7 @@ namespace {
 
     struct Case
     {
+        bool              strict_radio = false;   // replay of F-27b: the radio behaves like the hardware bindings when the receive ring is full
         int               cfg = 0;
         std::vector< Op > ops;
     };
@@ -194,6 +195,8 @@ namespace {
     std::string to_text( const Case& c )
     {
         std::ostringstream os;
+        if ( c.strict_radio )
+            os << "param strict-radio=1\n";
         os << "cfg " << c.cfg << "  # " << configs()[ c.cfg ].name << "\n";
         for ( auto& o : c.ops )
         {
@@ -228,6 +231,11 @@ namespace {
         for ( auto& l : L.lines )
         {
             Op o;
+            if ( l[ 0 ] == "param" )
+            {
+                c.strict_radio = kvi( l, "strict-radio", 0 ) != 0;
+                continue;
+            }
             if ( l[ 0 ] == "cfg" )
             {
                 c.cfg = static_cast< int >( verif::tok_int( l, 1 ) ) % static_cast< int >( configs().size() );
@@ -300,7 +308,7 @@ namespace {
         v_open              = 42;
         auto    dev         = cf.make();
         central cen( *dev );
-        cen.lenient_when_rx_full = flag( "F-27b" );
+        cen.lenient_when_rx_full = flag( "F-27b" ) && !c.strict_radio;
         dev->run();
 
         mstate         st = M_ADV;
@@ -318,12 +326,13 @@ namespace {
         // connection update
         struct upd_t
         {
+            bool          strict;   // nothing was queued in front of the update: it is handled in the event it was sent in
             bool          valid;
             std::uint16_t instant;
             conn_params   params;
         };
         std::deque< upd_t > updates;     // connection updates that were delivered and did not reach their instant yet
-        bool           upd_pending = false, upd_valid = false;
+        bool           upd_pending = false, upd_valid = false, upd_strict = false;
         std::uint16_t  upd_instant = 0;
         conn_params    upd_params;
         auto           next_update = [&]() {
@@ -331,6 +340,7 @@ namespace {
             if ( upd_pending )
             {
                 upd_valid   = updates.front().valid;
+                upd_strict  = updates.front().strict;
                 upd_instant = updates.front().instant;
                 upd_params  = updates.front().params;
             }
@@ -340,6 +350,7 @@ namespace {
         bool           version_seen = false;
         unsigned       delivered_cb_pdus = 0, reported_cb_pdus = 0;
         int            noack_left = 0;
+        bool           peripheral_idle = false;
         unsigned       total_events = 0;
         constexpr unsigned max_events = 6000;
 
@@ -354,6 +365,7 @@ namespace {
             delivered_cb_pdus = reported_cb_pdus = 0;
             established_seen = false;
             noack_left       = 0;
+            peripheral_idle  = false;
         };
 
         // ---- check what the application was told during the radio callback that just ended
@@ -405,7 +417,7 @@ namespace {
                     V_CHECK( !connected_now, "lifecycle.closed-unexpected", where, " but the link layer goes on with the connection" );
                     V_CHECK( any_reason || reasons.count( e.arg ), "lifecycle.closed-reason", where, " with reason 0x", std::hex, e.arg, std::dec,
                         " which is none of the reasons the history gives a cause for" );
-                    labels.insert( verif::cat( "closed:0x", std::hex, e.arg ) );
+                    labels.insert( e.arg == 0x08 || e.arg == 0x13 || e.arg == 0x16 || e.arg == 0x22 || e.arg == 0x28 ? verif::cat( "closed:0x", std::hex, e.arg ) : std::string( "closed:other-code" ) );
                     closing_cb = true;
                     st         = M_ADV;
                 }
@@ -436,7 +448,9 @@ namespace {
             if ( sk == S_CONNECT && connected_now )
                 V_CHECK( st == M_CONNECTING, "lifecycle.requested-missing", "op ", op_index, ": the link layer took the CONNECT_IND but did not call ll_connection_requested" );
             if ( sk == S_EVENT && st == M_CONNECTING && connected_now )
-                verif::fail( "lifecycle.established-missing", verif::cat( "op ", op_index, ": the first connection event took place but ll_connection_established was not called" ) );
+                verif::fail( "lifecycle.established-missing", verif::cat( "op ", op_index, ": the first connection event took place but ll_connection_established was not called",
+                                                                  local_disc ? " (disconnect() was called before the first connection event)" : "" ),
+                    verif::cat( "oracle=lifecycle.established-missing disconnect-before-first-event=", local_disc ? "yes" : "no" ) );
             if ( !connected_now && st != M_ADV )
             {
                 const std::string sig = verif::cat( "oracle=lifecycle.closed-missing burst=", n_in_step >= 4 ? "overflow" : "no", " state=", st == M_CONNECTING ? "connecting" : "established" );
@@ -445,7 +459,14 @@ namespace {
                         " was not called (", n_in_step, " other callbacks during this radio callback)" ),
                     sig );
             }
-            if ( connected_now && upd_pending && upd_valid && static_cast< std::int16_t >( dev->event_counter() - upd_instant ) > 0 )
+            if ( connected_now && upd_pending && !upd_strict && static_cast< std::int16_t >( dev->event_counter() - upd_instant ) > 0 )
+            {
+                // handled late (queued behind another procedure / a blocked transmit path): applied, or the instant has passed
+                updates.pop_front();
+                next_update();
+                any_reason = true;
+            }
+            if ( connected_now && upd_pending && upd_valid && upd_strict && static_cast< std::int16_t >( dev->event_counter() - upd_instant ) > 0 )
                 verif::fail( "lifecycle.changed-missing", verif::cat( "op ", op_index, ": the connection update with instant ", upd_instant, " is in effect (next event ", dev->event_counter(),
                                                               ") but ll_connection_changed was not called" ) );
             if ( connected_now && instant_pending && static_cast< std::int16_t >( dev->event_counter() - instant ) > 0 )
@@ -496,7 +517,11 @@ namespace {
                 burst.push_back( p );
             }
             const bool ack = noack_left <= 0;
+            // nothing queued on either side when this event starts, and the peripheral can transmit its answers
+            const bool clean_event = ack && peripheral_idle;
             const auto res = cen.event( burst, ack );
+            // idle: an acknowledged event without payload in either direction (nothing was queued, nothing is queued now)
+            peripheral_idle = ack && burst.empty() && cen.last_event_quiet && cen.connected();
             ++total_events;
             if ( trace )
                 std::cerr << "event t=" << cen.now_us / 1000 << "ms counter " << counter << " burst " << burst.size() << " delivered " << res.delivered << ( ack ? "" : " (no ack)" )
@@ -505,6 +530,7 @@ namespace {
             {
                 const Op&         o   = *burst_ops[ i ];
                 const std::size_t len = 1 + o.body.size();
+                const bool        instant_before = instant_pending;
                 if ( produces_callback( o, version_seen ) )
                     ++delivered_cb_pdus;
                 if ( o.opcode == 0x0C && len == 6 )
@@ -523,7 +549,7 @@ namespace {
                     }
                     if ( o.opcode == 0x00 && future )
                     {
-                        upd_t u{ false, instant, cur };
+                        upd_t u{ clean_event && !instant_before && i == 0, false, instant, cur };
                         u.params.interval = o.body[ 3 ] | ( o.body[ 4 ] << 8 );
                         u.params.latency  = o.body[ 5 ] | ( o.body[ 6 ] << 8 );
                         u.params.timeout  = o.body[ 7 ] | ( o.body[ 8 ] << 8 );
@@ -645,10 +671,11 @@ namespace {
                 {
                     // F-21a / F-21c: the PDU is handled in the event it is sent in (nothing queued in front of it)
                     noack_left = 0;
-                    for ( int k = 0; k != 12 && cen.connected() && delivered_cb_pdus != reported_cb_pdus && total_events < max_events; ++k )
+                    for ( int k = 0, quiet = 0; k != 24 && quiet < 2 && cen.connected() && total_events < max_events; ++k )
+                    {
                         do_event( {}, i );
-                    for ( int k = 0; k != 2 && cen.connected(); ++k )
-                        do_event( {}, i );
+                        quiet = cen.last_event_quiet ? quiet + 1 : 0;
+                    }
                 }
                 if ( avoid_instant_traffic && instant_pending )
                 {
@@ -694,6 +721,7 @@ namespace {
             case OP_APP:
                 if ( !ensure_connected( i ) )
                     break;
+                peripheral_idle = false;
                 switch ( o.app )
                 {
                 case APP_DISC:
@@ -716,7 +744,13 @@ namespace {
                         own_since = cen.anchor_us;
                     }
                     break;
-                case APP_PHY: dev->phy( 2, 2 ); break;
+                case APP_PHY:
+                    if ( dev->phy( 2, 2 ) && !own_proc )
+                    {
+                        own_proc  = true;
+                        own_since = cen.anchor_us;
+                    }
+                    break;
                 case APP_CPR:
                     if ( dev->cpr( cur.interval, cur.interval + 2, 0, cur.timeout ) && !own_proc )
                     {
